@@ -28,7 +28,7 @@ PEER = lambda cid: ("127.0.0.1", 40000 + cid)
 
 BAD_KINDS = ["not-json", "json-number", "json-list", "no-action-type", "no-parameters", "unknown-type",
              "unknown-param", "param-wrong-shape", "invalid-ip", "missing-required", "undecodable-bytes",
-             "invalid-network", "empty", "params-not-dict", "extra-field-in-value", "invalid-utf8-in-json", "invalid-utf8-in-json"]
+             "invalid-network", "empty", "params-not-dict", "extra-field-in-value", "invalid-utf8-in-json", "invalid-utf8-in-json", "reset-bad-flag", "reset-bad-flag", "reset-unknown-param", "join-wrong-shape"]
 
 
 def bad_message(kind, rng):
@@ -70,6 +70,12 @@ def bad_message(kind, rng):
         return good[:i] + rng.choice([b"\xff\xfe", b"\xc3", b"\x80"]) + good[i:]
     if kind == "extra-field-in-value":
         return json.dumps({"action_type": "ActionType.FindServices", "parameters": {"source_host": {"ip": "192.168.2.2", "x": 1}, "target_host": src}}).encode()
+    if kind == "reset-bad-flag":     # the value is not the text of a boolean
+        return json.dumps({"action_type": "ActionType.ResetGame", "parameters": {"request_trajectory": rng.choice(["maybe", "1", "yes", "None", "[1, 2]", "true ", "'True'"])}}).encode()
+    if kind == "reset-unknown-param":
+        return json.dumps({"action_type": "ActionType." + rng.choice(["ResetGame", "QuitGame", "JoinGame"]), "parameters": {"speed": "9"}}).encode()
+    if kind == "join-wrong-shape":
+        return json.dumps({"action_type": "ActionType.JoinGame", "parameters": {"agent_info": rng.choice(["Attacker", {"name": "x"}, ["x", "Attacker"], {"name": "x", "role": "Attacker", "team": 1}])}}).encode()
     raise ValueError(kind)
 
 
@@ -80,13 +86,18 @@ def gen_config(rng, scenario="scenario1_small"):
     ms_def = rng.choice([None, None, 2, 5])
     rewards = rng.choice([{"step": -1, "success": 100, "fail": -10}, {"step": 0, "success": 7, "fail": -3},
                           {"step": -2, "success": 50}, {}, {"step": 1, "success": 0, "fail": 5},
-                          {"success": 70, "fail": -7}, {"step": -1, "fail": -10}, {"fail": -4}])
-    goal_kind = rng.choice(["data", "known_host", "controlled", "network", "trivial", "services", "blocks", "data2", "blocks2", "blocks2r", "hosts2"])
+                          {"success": 70, "fail": -7}, {"step": -1, "fail": -10}, {"fail": -4},
+                          {"step": -0.5, "success": 10.5, "fail": -2.25}, {"step": -0.25, "fail": -1.5}])
+    goal_kind = rng.choice(["data", "known_host", "controlled", "network", "trivial", "services", "blocks", "data2", "data3", "data3r", "blocks2", "blocks2r", "hosts2"])
     goal = {"known_networks": [], "known_hosts": [], "controlled_hosts": [], "known_services": {}, "known_data": {}, "known_blocks": {}}
     if goal_kind == "data":
         goal["known_data"] = {"213.47.23.195": [["User1", "DataFromServer1"]]}
     elif goal_kind == "data2":
         goal["known_data"] = {"213.47.23.195": [["User1", "DataFromServer1"]], "192.168.1.2": [["User2", "Data2FromServer1"]]}
+    elif goal_kind == "data3":
+        goal["known_data"] = {"213.47.23.195": [["User1", "DataFromServer1"], ["User2", "Data2FromServer1"]]}
+    elif goal_kind == "data3r":
+        goal["known_data"] = {"213.47.23.195": [["User2", "Data2FromServer1"], ["User1", "DataFromServer1"]]}
     elif goal_kind == "blocks2":
         goal["known_blocks"] = {"192.168.2.2": ["192.168.1.3"], "192.168.1.6": ["192.168.1.5"]}
     elif goal_kind == "blocks2r":
@@ -146,9 +157,58 @@ def goal2j(g):
             "blocks": [[C.ip2n(k), [C.ip2n(x) for x in v]] for k, v in g["known_blocks"].items()]}
 
 
+REWARD_SCALE = 4   # configured rewards may be multiples of 1/4; the model (integers) sees them times 4
+
+
+def scaled(x):
+    """a real reward in the model's unit (exact for multiples of 1/4; anything else stays a float and mismatches)"""
+    if isinstance(x, bool) or not isinstance(x, (int, float)):
+        return x
+    y = x * REWARD_SCALE
+    return int(y) if y == int(y) else y
+
+
+def goal_as_written(g):
+    """The goal of a role as the task configuration WRITES it (no wildcards), in the shape of the parsed win conditions;
+    None when the section uses something this independent reading does not cover."""
+    try:
+        out = {"known_networks": set(), "known_hosts": set(), "controlled_hosts": set(), "known_services": {}, "known_data": {}, "known_blocks": {}}
+        for n in g.get("known_networks", []):
+            ip, m = n.split("/")
+            out["known_networks"].add(Network(ip, int(m)))
+        for k in ("known_hosts", "controlled_hosts"):
+            for x in g.get(k, []):
+                if x in ("random", "all_local"):
+                    return None
+                out[k].add(IP(x))
+        for h, v in g.get("known_services", {}).items():
+            if isinstance(v, str):
+                return None
+            out["known_services"][IP(h)] = {Service(v[0], v[1], v[2], v[3])}
+        for h, v in g.get("known_data", {}).items():
+            items = set()
+            for d in v:
+                if not isinstance(d, list):
+                    return None
+                items.add(Data(d[0], d[1]))
+            out["known_data"][IP(h)] = items
+        for h, v in g.get("known_blocks", {}).items():
+            if isinstance(v, str):
+                return None
+            out["known_blocks"][IP(h)] = {IP(x) for x in v}
+        return out
+    except Exception:
+        return None
+
+
+def canon_goal(gj):
+    return json.dumps({"nets": sorted(map(json.dumps, gj["nets"])), "known": sorted(gj["known"]), "controlled": sorted(gj["controlled"]),
+                       **{k: sorted((h, sorted(map(json.dumps, v))) for h, v in gj[k]) for k in ("services", "data", "blocks")}}, sort_keys=True)
+
+
 def settings_of(coord):
     """Model settings read from the *running* coordinator (what it parsed, not what we wrote)."""
-    r = coord._rewards
+    r = {k: scaled(v) for k, v in coord._rewards.items()}
     return {"required": coord._min_required_players,
             "maxSteps": {k: coord._steps_limit_per_role.get(k) for k in ROLES},
             "rStep": r["step"], "rSuccess": r["success"], "rFail": r["fail"],
@@ -191,6 +251,13 @@ class Session:
         got = {k: self.coord._rewards.get(k) for k in ("step", "success", "fail")} if getattr(self.coord, "_rewards", None) is not None else None
         if got is not None and got != want:
             fail({"C05", "C19"}, "rewards-not-as-configured", f"the game uses rewards {got} but the configuration says {want} (absent = 0)", {"kind": "config", "config": cfg})
+        if not cfg["env"].get("use_dynamic_addresses"):
+            for role in ("Attacker", "Defender"):
+                gw = goal_as_written(cfg["coordinator"]["agents"][role]["goal"])
+                if gw is not None and canon_goal(goal2j(gw)) != canon_goal(self.settings["goal"][role]):
+                    fail({"C04", "C19"}, "goal-not-as-configured", f"the {role} goal the game checks is not the configured one: configured {cfg['coordinator']['agents'][role]['goal']}, "
+                         f"used {self.settings['goal'][role]}", {"kind": "config", "config": cfg})
+                    self.settings["goal"][role] = goal2j(gw)
         drv.ask({"op": "coord_init", "settings": self.settings})
         self.model_state = None
         self.broken = False
@@ -252,11 +319,11 @@ class Session:
                 "name": co.agents[addr][0], "role": co.agents[addr][1],
                 "view": C.canon_view(C.view2j(co._agent_states[addr])), "steps": co._agent_steps[addr],
                 "status": STATUS[str(co._agent_status[addr])], "ended": bool(co._episode_ends[addr]),
-                "resetReq": bool(co._reset_requests[addr]), "reward": co._agent_rewards[addr],
+                "resetReq": bool(co._reset_requests[addr]), "reward": scaled(co._agent_rewards[addr]),
                 "paid": addr in co._episode_rewards_assigned,
-                "obs": None if ob is None else {"view": C.canon_view(C.view2j(ob.state)), "reward": ob.reward, "end": bool(ob.end),
+                "obs": None if ob is None else {"view": C.canon_view(C.view2j(ob.state)), "reward": scaled(ob.reward), "end": bool(ob.end),
                                                 "reason": STATUS.get(ob.info.get("end_reason")) if ob.info else None},
-                "traj_len": len(tr["actions"]), "traj_rewards": list(tr["rewards"]),
+                "traj_len": len(tr["actions"]), "traj_rewards": [scaled(x) for x in tr["rewards"]],
                 "traj_states": len(tr["states"]),
             }])
         conns = []
@@ -314,7 +381,7 @@ class Session:
             if ob is not None:
                 try:
                     st = GameState.from_dict(ob["state"])
-                    r["obs"] = {"view": C.canon_view(C.view2j(st)), "reward": ob["reward"], "end": bool(ob["end"]),
+                    r["obs"] = {"view": C.canon_view(C.view2j(st)), "reward": scaled(ob["reward"]), "end": bool(ob["end"]),
                                 "reason": STATUS.get((ob.get("info") or {}).get("end_reason"))}
                     r["obs_view_raw"] = C.view2j(st)
                 except Exception as e:
@@ -326,7 +393,7 @@ class Session:
                     r["hasMaxSteps"] = True
                 if "last_trajectory" in msg:
                     lt = msg["last_trajectory"]["trajectory"]
-                    r["traj"] = {"n_states": len(lt["states"]), "n_actions": len(lt["actions"]), "rewards": list(lt["rewards"]),
+                    r["traj"] = {"n_states": len(lt["states"]), "n_actions": len(lt["actions"]), "rewards": [scaled(x) for x in lt["rewards"]],
                                  "actions": [json.dumps(a, sort_keys=True) for a in lt["actions"]],
                                  "states": [C.canon_view(C.view2j(GameState.from_dict(s))) for s in lt["states"]]}
                     r["traj_meta"] = {k: msg["last_trajectory"].get(k) for k in ("agent_role", "agent_name", "end_reason")}
@@ -677,8 +744,42 @@ class Session:
                     S["final_observations"] = S.get("final_observations", 0) + 1
                     if self.bonus_seen[k] > 1:
                         self.fail({"C04", "C05"}, "two-finals", f"connection {c} received two final observations in one episode", self.replay())
-        # C08: every completed reset (static addresses) must leave the world in its initial condition
         co = self.coord
+        dyn = bool(self.cfg["env"].get("use_dynamic_addresses"))
+        # C07 / C11 / C13 / C19: the view handed out at the start of an episode contains only hosts that exist NOW, and
+        # every host the start position lists explicitly (followed through the current re-labelling)
+        for o in real_outs:
+            if o["k"] != "reply" or "obs" not in o or o["code"] not in ("CREATED", "RESET_DONE") or "obs_view_raw" not in o:
+                continue
+            c = o["c"]
+            role = co.agents.get(PEER(c), (None, None))[1]
+            if role not in ("Attacker", "Defender"):
+                continue
+            try:
+                v = GameState.from_dict(o["raw"]["observation"]["state"])
+            except Exception:
+                continue
+            tags = {"C11", "C19"} | ({"C07"} if o["code"] == "RESET_DONE" else set()) | ({"C13"} if dyn else set())
+            ghosts = sorted(str(x) for x in (set(v.known_hosts) | set(v.controlled_hosts)) if x not in co._ip_to_hostname)
+            if ghosts:
+                self.fail(tags, f"start-view-ghosts:{o['code']}", f"the initial view sent with {o['code']} to {c} ({role}) lists hosts {ghosts[:6]} that do not exist in the network as it is now", self.replay())
+            sp = self.cfg["coordinator"]["agents"][role]["start_position"]
+            for part in ("controlled_hosts", "known_hosts"):
+                for x in sp.get(part, []):
+                    if x in ("random", "all_local"):
+                        continue
+                    cur = co._ip_mapping.get(IP(x), IP(x)) if dyn and getattr(co, "_ip_mapping", None) else IP(x)
+                    if cur not in getattr(v, part):
+                        self.fail(tags, f"start-view-missing:{part}:{o['code']}", f"{part} of the start position lists {x} (now {cur}) but the initial view sent with {o['code']} to {c} does not contain it", self.replay())
+        if dyn:
+            # a reset that completed during this event re-labelled the goals (its RESET_DONE may have been lost with a
+            # failing connection): the model continues with the goals the coordinator uses now
+            cur = settings_of(self.coord)
+            if cur["goal"] != self.settings["goal"]:
+                self.settings = cur
+                self.drv.ask({"op": "coord_settings", "settings": self.settings})
+                self.gen = None
+        # C08: every completed reset (static addresses) must leave the world in its initial condition
         if self.world0 is None and co._ip_to_hostname and not any(co._agent_steps.values()) and not co._fw_blocks:
             self.world0 = C.canon_worlddyn(C.worlddyn2j(co))
         if self.world0 is not None and not co.task_config.get_use_dynamic_addresses() and any(o.get("code") == "RESET_DONE" for o in real_outs):
@@ -861,12 +962,24 @@ class Script:
 def run_sessions(drv, rng, defender_tables, on_fail, stats, n_sessions, n_events, profile=None, cfg_gen=gen_config):
     for si in range(n_sessions):
         prof = dict(profile or {})
-        if prof.get("outcome_mix") and si % 2 == 1:
+        is_outcomes = bool(prof.get("outcome_mix") and si % 2 == 1)
+        if is_outcomes:
             cfg = gen_config_outcomes(rng)
             prof["goal_push"] = 0.25
             prof["roles"] = ["Attacker", "Attacker", "Defender"]
         else:
             cfg = cfg_gen(rng)
+            if getattr(cfg_gen, 'variants', cfg_gen is gen_config) and rng.random() < 0.12:
+                # the full scenario: several candidate hosts behind a 'random' start position
+                cfg["env"]["scenario"] = "scenario1"
+                cfg["coordinator"]["agents"]["Attacker"]["start_position"]["controlled_hosts"] = rng.choice([["random"], ["213.47.23.195", "random"]])
+                stats["sessions_full_scenario_random_start"] = stats.get("sessions_full_scenario_random_start", 0) + 1
+        if getattr(cfg_gen, 'variants', cfg_gen is gen_config) and not is_outcomes and rng.random() < 0.12:
+            # dynamic addresses: every reset re-labels the network (no bursts: the goals change inside a delivery)
+            cfg["env"]["use_dynamic_addresses"] = True
+            prof["burst"] = 0.0
+            prof["early_reset"] = max(prof.get("early_reset", 0.0), 0.12)
+            stats["sessions_dynamic_addresses"] = stats.get("sessions_dynamic_addresses", 0) + 1
         for k, v in (prof.get("force_env") or {}).items():
             cfg["env"][k] = v
         if prof.get("attacker_max_steps"):
@@ -906,7 +1019,7 @@ def run_sessions(drv, rng, defender_tables, on_fail, stats, n_sessions, n_events
             stats["sessions"] = stats.get("sessions", 0) + 1
             if len(stats.setdefault("samples", [])) < 2:
                 stats["samples"].append({"config_env": cfg["env"], "events": sess.events[:12]})
-            if sess.settings["storeTraj"]:
+            if sess.settings["storeTraj"] and not sess.diverged:      # (after a divergence the model's file log is not the session's)
                 check_files(sess, on_fail, stats)
         finally:
             sess.close()
@@ -935,7 +1048,7 @@ def check_files(sess: Session, on_fail, stats):
     for k in real:
         for rr, mm in zip(real[k], model[k]):
             tr = rr["trajectory"]
-            if len(tr["actions"]) != len(mm["traj"]["steps"]) or list(tr["rewards"]) != [x["reward"] for x in mm["traj"]["steps"]] or len(tr["states"]) != len(tr["actions"]) + 1:
+            if len(tr["actions"]) != len(mm["traj"]["steps"]) or [scaled(x) for x in tr["rewards"]] != [x["reward"] for x in mm["traj"]["steps"]] or len(tr["states"]) != len(tr["actions"]) + 1:
                 on_fail({"C16"}, "files-content", f"trajectory file record of {k}: {len(tr['actions'])} actions rewards {tr['rewards']} vs model {[x['reward'] for x in mm['traj']['steps']]}", sess.replay())
                 return
 
